@@ -290,7 +290,7 @@ func c11Run(e *core.Env) {
 			if !e.Mine(idx) {
 				continue
 			}
-			mid := big.NewInt(2*m + 1) // (m + 1/2) * 2
+			mid := big.NewInt(2*m + 1)       // (m + 1/2) * 2
 			sq := new(big.Int).Mul(mid, mid) // (2m+1)^2 = 4 (m+1/2)^2
 			for _, j := range []int{0, 1, 2, 3, 5, 8, 12, 20} {
 				// floor((m+1/2)^2 * 10^(2j)) = floor((2m+1)^2 * 10^(2j) / 4): for large j the operand is the exact
@@ -393,6 +393,10 @@ func c11Run(e *core.Env) {
 			// cubes of large and small magnitude (adjusted exponents +-33 ... +-3000)
 			js = append(js, 11, -12, 100, -101, 1000)
 		}
+		if m == 2 || m == 3 || m == 11 || m == 999 {
+			// magnitudes in the outer quarter of the exponent range (intermediate products of the iteration are ~|x|^(4/3))
+			js = append(js, 26000, -26000, 30000, -30000)
+		}
 		for _, j := range js {
 			for _, neg := range []bool{false, true} {
 				x := FinBig(cube, 3*j, neg)
@@ -453,15 +457,15 @@ func init() {
 	core.Register(&core.Prop{
 		ID:    "C11",
 		Title: "Sqrt is correctly rounded; Cbrt is within one unit and exact on perfect cubes",
-		Rule:  "Sqrt on every coefficient below 10^(2p+2) for small p (both exponent parities), on the sparse SHAPE families for p = 1..16 under all context modes, and on the pre-images of every p-digit midpoint, against big.Int.Sqrt + sticky rounded half-even once (value and Inexact iff not exactly representable); Cbrt on every perfect cube m^3 (both signs, scaled by 10^(3j), j in {0,1,-2} and for a share {11,-12,100,-101,1000}) and DENSE operands against an exact (r+-ulp)^3 bracket; non-trivial = inexact root / non-trivial cube case",
+		Rule:  "Sqrt on every coefficient below 10^(2p+2) for small p (both exponent parities), on the sparse SHAPE families for p = 1..16 under all context modes, and on the pre-images of every p-digit midpoint, against big.Int.Sqrt + sticky rounded half-even once (value and Inexact iff not exactly representable); Cbrt on every perfect cube m^3 (both signs, scaled by 10^(3j), j in {0,1,-2} and for a share {11,-12,100,-101,1000}; four cubes at 10^+-78000 and 10^+-90000) and DENSE operands against an exact (r+-ulp)^3 bracket; non-trivial = inexact root / non-trivial cube case",
 		Bounds: func(tier string) string {
 			if tier == "thorough" {
 				return "Sqrt: all coefficients < 10^(2p+2) for p <= 3 x 2 parities; SHAPE(14) x 6 exponents x p = 1..16 x 8 modes (+ tight range for p <= 5); midpoint pre-images for p <= 4 (j in {0,1,2,3,5,8,12,20}, +-1 in the last digit, 3 exponents); every perfect square m^2, m < 10^4, x 5 exponents x 8 modes x 4 precisions; Cbrt: m^3 for m < 10^4 x 3 scalings x signs x 6 precisions, DENSE(4) x 5 exponents x 4 precisions, SHAPE"
 			}
 			return "Sqrt: all coefficients < 10^(2p+2) for p <= 2 x 2 parities; SHAPE(10) x 6 exponents x p in {1..9,16} x 8 modes (+ tight range for p <= 5); midpoint pre-images for p <= 3; every perfect square m^2, m < 2000, x 5 exponents x 8 modes x 4 precisions; Cbrt: m^3 for m < 2000 x 3 scalings x signs x 6 precisions, DENSE(3) x 5 exponents x 4 precisions, SHAPE"
 		},
-		Run:    c11Run,
-		Replay: c11Replay,
+		Run:         c11Run,
+		Replay:      c11Replay,
 		Assumptions: []string{"integer-root oracle (big.Int.Sqrt, integer Newton cube root) with a sticky bit; Cbrt's Inexact on non-cubes is not asserted (the property demands it of Sqrt only)"},
 	})
 }
